@@ -3857,7 +3857,8 @@ Case_BaseLdurStur:
             goto InvalidPhysId;
 
           opcode.reset(uint32_t(op_data.element_op) << 10);
-          opcode.add_imm(size_op.q(), 30);
+          opcode.add_imm(size_op.qs(), 30);
+          opcode.add_imm(size_op.scalar(), 28);
           opcode.add_imm(size_op.size(), 22);
           opcode.add_imm(lmh.lm, 20);
           opcode.add_imm(lmh.h, 11);
